@@ -567,3 +567,24 @@ def define_over_bytes(c, e, w, n):
         c.st.sys.add_range(rest, 0, (1 << 96) - 1)
         c.st.cells["ghost:q:" + next(iter(rest.t))] = Num(rest)
         c.st.sys.add_eq(e - hi.scale(1 << 96) - rest)
+
+
+# ------------------------------------------------------------------------------------------------ joining strings
+
+@first(r"^alloc::str::<impl \[.*\]>::join::<.*>$|^std::slice::<impl \[.*\]>::join::<.*>$|^alloc::slice::<impl \[.*\]>::join::<.*>$|^std::str::<impl \[.*\]>::join::<.*>$")
+def slice_join(c):
+    """`[a, b, c].join(sep)` over a short list of strings / byte strings: the concatenation with the separator in between"""
+    lst = c.deref(c.args[0])
+    sep = c.deref(c.args[1])
+    if not (isinstance(lst, Seq) and is_listed(lst.items) and isinstance(sep, Seq)):
+        return [(c.st, c.top_ret())]
+    parts = [c.deref(lst.items.f[i]) for i in sorted(lst.items.f)]
+    if not parts or not all(isinstance(p, Seq) for p in parts):
+        return [(c.st, c.top_ret())]
+    acc_len, acc_src = parts[0].len, parts[0].content()
+    for p in parts[1:]:
+        for q in (sep, p):
+            qs = q.content()
+            acc_src = ("cat", acc_src, acc_len, qs) if acc_src is not None and qs is not None else None
+            acc_len = acc_len + q.len
+    return [(c.st, Seq(acc_len, None, None, None, acc_src))]
